@@ -35,7 +35,11 @@ Fixpoint doc_words (nd td : dict) (p : path) : outcome words :=
    intended words along the path *)
 Definition doc_var (nd td : dict) (prefix : str) (p : path) : outcome str :=
   match tag_get dialsenv_tag (leaf_tags p) with
-  | [] => ws <- doc_words nd td p ;; Ok (with_prefix prefix (encode_upper_snake ws))
+  | [] => ws <- doc_words nd td p ;;
+          match encode_upper_snake ws with
+          | [] => Err 5                       (* no word at all: there is no variable to name *)
+          | n => Ok (with_prefix prefix n)
+          end
   | v => Ok (with_prefix prefix v)
   end.
 
@@ -88,9 +92,13 @@ Fixpoint path_class (nd td : dict) (p : path) : N :=
 Fixpoint first_class (nd td : dict) (prefix : str) (ls : list leaf) (pts : list (path * ty)) : N :=
   match ls, pts with
   | l :: ls', pt :: pts' =>
-      if ostr_eqb (env_leaf_var prefix l) (doc_var nd td prefix (fst pt))
-      then first_class nd td prefix ls' pts'
-      else path_class nd td (fst pt)
+      (* a class only explains two NAMES that differ; any other disagreement
+         (error or panic on one side) is not a known finding *)
+      match env_leaf_var prefix l, doc_var nd td prefix (fst pt) with
+      | Ok a, Ok b => if str_eqb a b then first_class nd td prefix ls' pts' else path_class nd td (fst pt)
+      | Err _, Err _ => first_class nd td prefix ls' pts'
+      | _, _ => 0
+      end
   | _, _ => 0
   end.
 
